@@ -319,24 +319,56 @@ def check_sign(res, facts):
         fn = fns[0]
         helper = "get_ys_from_x_unchecked" if model == "SW" else "get_xs_from_y_unchecked"
         flagfn = "is_positive" if model == "SW" else "is_negative"
+        # worlds are the sign variants of the flags type: every value of that type is assumed to be the variant (typed
+        # world assumption), and the flag helpers are answered from their own bodies evaluated on it -- so a decoder that
+        # matches on the variants directly and one that asks is_positive() are decided the same way
+        fty = SWFLAGS if model == "SW" else TEFLAGS
+        discr, helpers_ = {}, {}
+        for g in facts.fns(unit="ws", crate="ark_ec"):
+            if g.kind == "Closure":
+                continue
+            for _bi, _si, st_ in g.stmts():
+                r_ = st_.get("r")
+                if r_ and r_.get("k") == "agg" and r_.get("adt") == fty and r_.get("variant"):
+                    discr[r_["variant"]] = r_.get("dv", r_.get("vidx"))
+            if g.self_head == fty and g.name in ("is_positive", "is_negative", "is_infinity") and not g.trait_impl:
+                helpers_[g.name] = g
+        htable = {}
+        for hn, h in helpers_.items():
+            for v_, d_ in discr.items():
+                outs_ = set()
+                for st0, e0 in PS.explore(h, lambda st, bb, t: PS.UNKNOWN, init={1: d_}, max_states=100):
+                    if e0 == "return":
+                        outs_.add((st0.env.get(0, PS.UNKNOWN), st0.env.get((0, 0), PS.UNKNOWN)))
+                htable[(hn, v_)] = outs_.pop() if len(outs_) == 1 else None
+        pos_var, neg_var = ("YIsPositive", "YIsNegative") if model == "SW" else ("XIsPositive", "XIsNegative")
         table = {}
         for flagval in (True, False):
-            def oracle(st, bb, t, flagval=flagval):
+            variant = (pos_var if flagval else neg_var) if model == "SW" else (neg_var if flagval else pos_var)
+            world_by_type = {fty: discr[variant]} if variant in discr else None
+
+            def oracle(st, bb, t, flagval=flagval, variant=variant):
                 n = t["f"].get("name")
-                if n == flagfn:
-                    return PS.Adt(1, [flagval]) if model == "SW" else flagval      # SW: Option<bool> -> Some(flag)
-                if n == "unwrap" and model == "SW":
-                    return flagval
+                if n in helpers_ and htable.get((n, variant)) is not None and htable[(n, variant)][0] is not PS.UNKNOWN:
+                    r_ = htable[(n, variant)]
+                    if helpers_[n].local_ty(0).startswith("core::option::Option"):
+                        return PS.Adt(r_[0], [r_[1]])
+                    return r_[0]
+                if n == "unwrap" and t["args"]:
+                    l_ = op_local(t["args"][0])
+                    pv = st.env.get((l_, 0), PS.UNKNOWN) if l_ is not None else PS.UNKNOWN
+                    if pv is not PS.UNKNOWN:
+                        return pv
+                    return flagval if model == "SW" else PS.UNKNOWN
                 if n == "branch":
                     return 0
                 if n in ("ok_or", "ok_or_else"):
                     return 0
-                if n == "is_infinity":
-                    return False
                 if t["f"].get("trait") == "core::cmp::PartialEq" and t["f"].get("self", "").endswith("Validate"):
                     return False
                 return PS.UNKNOWN
-            ends = PS.explore(fn, oracle, init={2: 0}, max_states=6000)   # compress = Yes
+            ends = PS.explore(fn, oracle, init={2: 0}, max_states=6000, by_type=world_by_type)   # compress = Yes
+
             comps = set()
             for st, e in ends:
                 if e != "return" or st.env.get(0) != 0:
